@@ -198,24 +198,26 @@ async fn acks(ctx: Ctx, p: Rc<AckParams>) {
 
 pub fn c03(args: &Args) -> Vec<Scenario> {
     let t = args.thorough();
-    let b = if t { 3 } else { 2 };
+    // deviation bounds (quick, thorough)
+    let b = if t { 4 } else { 3 };
+    let b2 = if t { 3 } else { 2 };
+    let b1 = if t { 2 } else { 1 };
     let mut v = vec![];
     let mk = |p: AckParams, bound: usize| {
         let name = p.name.clone();
         let p = Rc::new(p);
         Scenario::new(name, bound, move |ctx| acks(ctx, p.clone())).cfg(|c| {
             c.horizon_ms = 60_000;
-            if t {
-                c.fates = FATES_FULL;
-            }
+            c.fates = FATES_FULL;
         })
     };
     v.push(mk(AckParams { name: "C03.one-reader[writes=2]".into(), writes_before: 2, second_reader: false, second_best_effort: false, leave: Leave::None, lag_second: false }, b));
-    v.push(mk(AckParams { name: "C03.two-readers[writes=2]".into(), writes_before: 2, second_reader: true, second_best_effort: false, leave: Leave::None, lag_second: false }, 2));
-    v.push(mk(AckParams { name: "C03.besteffort-neighbour[writes=2]".into(), writes_before: 2, second_reader: true, second_best_effort: true, leave: Leave::None, lag_second: false }, 1));
+    v.push(mk(AckParams { name: "C03.one-reader[writes=3]".into(), writes_before: 3, second_reader: false, second_best_effort: false, leave: Leave::None, lag_second: false }, b2));
+    v.push(mk(AckParams { name: "C03.two-readers[writes=2]".into(), writes_before: 2, second_reader: true, second_best_effort: false, leave: Leave::None, lag_second: false }, b2));
+    v.push(mk(AckParams { name: "C03.besteffort-neighbour[writes=2]".into(), writes_before: 2, second_reader: true, second_best_effort: true, leave: Leave::None, lag_second: false }, b2));
     for leave in [Leave::DeleteReader, Leave::DeleteParticipant, Leave::Vanish] {
-        v.push(mk(AckParams { name: format!("C03.leave[{leave:?},single]"), writes_before: 2, second_reader: false, second_best_effort: false, leave, lag_second: true }, 1));
-        v.push(mk(AckParams { name: format!("C03.leave[{leave:?},second]"), writes_before: 2, second_reader: true, second_best_effort: false, leave, lag_second: true }, 1));
+        v.push(mk(AckParams { name: format!("C03.leave[{leave:?},single]"), writes_before: 2, second_reader: false, second_best_effort: false, leave, lag_second: true }, b1));
+        v.push(mk(AckParams { name: format!("C03.leave[{leave:?},second]"), writes_before: 2, second_reader: true, second_best_effort: false, leave, lag_second: true }, b1));
     }
     v
 }
